@@ -17,6 +17,7 @@ import (
 
 	"github.com/ontio/ontology/common/config"
 	"github.com/ontio/ontology/common/log"
+	"github.com/ontio/ontology/core/payload"
 	"github.com/ontio/ontology/core/store/leveldbstore"
 	"github.com/ontio/ontology/core/store/overlaydb"
 	"github.com/ontio/ontology/core/types"
@@ -112,7 +113,13 @@ var pgGasTable map[string]uint64
 func pgRunOnce(store *leveldbstore.LevelDBStore, code []byte, preExec bool, gas uint64) pgObs {
 	overlay := overlaydb.NewOverlayDB(store)
 	cache := storage.NewCacheDB(overlay)
-	tx := &types.Transaction{}
+	// a properly constructed (deserialized) invoke transaction carrying the program, as on the node
+	mtx := &types.MutableTransaction{TxType: types.InvokeNeo, Nonce: 1, GasPrice: 0, GasLimit: 20000,
+		Payload: &payload.InvokeCode{Code: code}}
+	tx, terr := mtx.IntoImmutable()
+	if terr != nil {
+		return pgObs{Err: "tx: " + terr.Error()}
+	}
 	sc := smartcontract.SmartContract{
 		Config:   &smartcontract.Config{Time: 10, Height: 10, Tx: tx},
 		CacheDB:  cache,
